@@ -23,7 +23,8 @@ NCPU = os.cpu_count() or 8
 # ----------------------------------------------------------------------------------------
 COMMON_DEFS = ["-D" + GUARD, "-DCPP_UTILITY_HAS_SPINLOCK_HINT"]
 SPIN_DEFAULT = ["-DCPP_UTILITY_SPINLOCK_RETRY_NUM=10", "-DCPP_UTILITY_BACKOFF_TIME=10"]
-SPIN_ALT = ["-DCPP_UTILITY_SPINLOCK_RETRY_NUM=1", "-DCPP_UTILITY_BACKOFF_TIME=0"]
+# the other extreme of the two documented spin options: no retries at all, minimal back-off
+SPIN_ALT = ["-DCPP_UTILITY_SPINLOCK_RETRY_NUM=0", "-DCPP_UTILITY_BACKOFF_TIME=1"]
 
 FLAVORS = {
     "plain": (["-O2", "-g"], "g++"),
@@ -93,11 +94,12 @@ def _compile(cxx, flags, src, obj):
 
 def ensure_builds(names, log=print):
     """Build (in parallel) every binary in names that is not cached for the current tree."""
-    th = tree_hash()
     os.makedirs(BUILD, exist_ok=True)
     todo = []
     out = {}
     for n in names:
+        hs_, rs_, flags_, cxx_ = build_spec(n)
+        th = hashlib.sha1((tree_hash() + cxx_ + " ".join(flags_)).encode()).hexdigest()[:16]  # sources + flags
         d = os.path.join(BUILD, "%s-%s" % (n, th))
         exe = os.path.join(d, n.split(".")[0])
         out[n] = exe
@@ -142,7 +144,7 @@ def ensure_builds(names, log=print):
         os.replace(exe + ".tmp", exe)
         for o in objs:
             os.remove(o)
-    log("[build] %d binaries for tree %s in %.1f s" % (len(todo), th, time.time() - t0))
+    log("[build] %d binaries for tree %s in %.1f s" % (len(todo), tree_hash(), time.time() - t0))
     return out
 
 
